@@ -15,6 +15,10 @@ pub struct KnownLine {
 
 pub static KNOWN: OnceLock<Vec<KnownLine>> = OnceLock::new();
 
+/// side channel for the time-budget guard in main: unlisted violations seen so far by any worker
+pub static GLOBAL_UNKNOWN: std::sync::atomic::AtomicU64 = std::sync::atomic::AtomicU64::new(0);
+pub static GLOBAL_FIRST: std::sync::Mutex<Vec<Violation>> = std::sync::Mutex::new(Vec::new());
+
 pub fn parse_known(text: &str) -> Result<Vec<KnownLine>, String> {
   let mut out = Vec::new();
   for (ln, line) in text.lines().enumerate() {
@@ -150,6 +154,11 @@ impl Log {
       }
       None => {
         self.unknown_total += 1;
+        if GLOBAL_UNKNOWN.fetch_add(1, std::sync::atomic::Ordering::Relaxed) < 40 {
+          if let Ok(mut g) = GLOBAL_FIRST.lock() {
+            g.push(v.clone());
+          }
+        }
         if self.unknown.len() < STORE_CAP {
           self.unknown.push(v);
         }
